@@ -58,6 +58,9 @@ class _O:
     def u(self, d, i):
         return d[i]
 
+    def uint(self, d, i, n, order):
+        return int.from_bytes(bytes(d[i:i + n]), order)
+
     def name_field_ok(self, f):
         """1..32 bytes of valid UTF-8 without trailing NUL, NUL padded"""
         s = bytes(f).rstrip(b"\x00")
